@@ -70,6 +70,9 @@ def functions(src):
         yield (nm.group(1) or nm.group(2)), src[i + 1:j - 1]
 
 
+ACQ_OUT = re.compile(r"(?<![\w>.])jpeg_read_icc_profile\s*\(\s*\w+\s*,\s*&\s*(\w+)")       # block returned through an out-parameter
+OWNED_FREE = re.compile(r"\bfree\s*\(\s*(this->\w+)\s*\)")
+HANDOVER = re.compile(r"\*\s*\w+\s*=\s*(this->\w+)\s*;")
 ACQ = re.compile(r"(?<![\w>.])((?:this->)?\w+)(\s*\[\s*\w+\s*\])?\s*=\s*(?:\([^()]*\)\s*)?(malloc|MALLOC|calloc|realloc|strdup|tj3Init|fopen)\s*\(")
 CALL = re.compile(r"(?<![\w>.])(_?jpeg_\w+|jinit_\w+|jcopy_markers_\w+|jtransform_\w+|setCompDefaults|setDecompParameters|setDecodeDefaults)\s*\(|\(\*\s*\w+->[\w>\-]+\)\s*\(")
 NOFAIL = {"jpeg_abort_compress", "jpeg_abort_decompress", "jpeg_destroy_compress", "jpeg_destroy_decompress"}
@@ -77,11 +80,12 @@ NOFAIL = {"jpeg_abort_compress", "jpeg_abort_decompress", "jpeg_destroy_compress
 progs, sizes = [], []
 for fname in ("src/turbojpeg.c", "src/turbojpeg-mp.c"):
     src = strip_comments(rd(fname))
+    owned_members = set(OWNED_FREE.findall(src))       # pointer members of the instance (freed somewhere)
     for name, raw in functions(src):
-        if not ACQ.search(raw):
+        if not (ACQ.search(raw) or ACQ_OUT.search(raw) or OWNED_FREE.search(raw) or HANDOVER.search(raw)):
             continue
         body = preprocess(raw)
-        if not ACQ.search(body):
+        if not (ACQ.search(body) or ACQ_OUT.search(body) or OWNED_FREE.search(body) or HANDOVER.search(body)):
             continue
         if name in ("tj3Alloc", "tj3Init"):
             continue          # tj3Alloc is the allocator itself; tj3Init is modelled in model/TjInit.v
@@ -96,6 +100,16 @@ for fname in ("src/turbojpeg.c", "src/turbojpeg-mp.c"):
             if v not in vars_:
                 vars_.append(v)
             acqs.append(m)
+        outs = list(ACQ_OUT.finditer(body))
+        for m in outs:
+            if m.group(1) not in vars_:
+                vars_.append(m.group(1))
+        hand = [m for m in HANDOVER.finditer(body) if m.group(1) in owned_members]
+        for m in list(OWNED_FREE.finditer(body)) + hand:
+            if m.group(1) not in vars_:
+                vars_.append(m.group(1))
+        if not (acqs or outs or vars_):
+            continue
         # loop spans
         loops = []
         for m in re.finditer(r"\bfor\s*\(", body):
@@ -111,8 +125,10 @@ for fname in ("src/turbojpeg.c", "src/turbojpeg-mp.c"):
         # setjmp handler blocks (their inner goto/retval are not separate THROW sites)
         handlers = []
         for m in re.finditer(r"if\s*\(\s*setjmp\s*\(", body):
-            k = body.index("{", m.end())
-            handlers.append((m.start(), match_brace(body, k)))
+            k = match_brace(body, body.index("(", m.start()), "(", ")")
+            while body[k].isspace():
+                k += 1
+            handlers.append((m.start(), match_brace(body, k) if body[k] == "{" else body.index(";", k) + 1))
 
         def in_handler(p):
             return any(a <= p < b for a, b in handlers)
@@ -157,19 +173,29 @@ for fname in ("src/turbojpeg.c", "src/turbojpeg-mp.c"):
                 sizes.append((name, v, " ".join(body[m.end():close - 1].split())))
             # the THROW that belongs to this NULL test is not a separate choice point
             handlers.append((close, close + t.end()))
+        for m in outs:
+            ev.append((m.start(), "BAcquireOut %d" % vars_.index(m.group(1))))
+        for v in vars_:
+            for w in vars_:
+                if v != w:
+                    for m in re.finditer(r"(?<![\w>.*])" + re.escape(v) + r"\s*=\s*" + re.escape(w) + r"\s*;", body):
+                        ev.append((m.start(), "BMove %d %d" % (vars_.index(v), vars_.index(w))))
+        for m in hand:
+            ev.append((m.start(), "BEscape %d" % vars_.index(m.group(1))))
         for m in re.finditer(r"\bTHROW\w*\s*[\({]|\bgoto\s+bailout\b", body[:cut]):
             if not in_handler(m.start()):
                 ev.append((m.start(), "BThrow"))
         for m in re.finditer(r"if\s*\(\s*setjmp\s*\(", body):
             ev.append((m.start(), "BSetjmp"))
+        outpos = {m.start() for m in outs}
         for m in CALL.finditer(body[:cut]):
-            if m.group(1) in NOFAIL:
+            if m.group(1) in NOFAIL or m.start() in outpos:
                 continue
             ev.append((m.start(), "BCall"))
         ev = [(p_, t_) for p_, t_ in ev if not (t_.startswith("BSetNull") and any(a <= p_ < b for a, b in cond_spans))]
         ev.sort()
         # early returns between the first acquisition and the epilogue other than an acquisition's own test
-        first_acq = min(m.start() for m in acqs)
+        first_acq = min([m.start() for m in acqs] + [m.start() for m in outs] + [len(body)])
         for m in re.finditer(r"\breturn\b", body[first_acq:cut]):
             p = first_acq + m.start()
             if not bl and re.match(r"return\b[^;]*;\s*$", body[p:]):
@@ -213,21 +239,69 @@ for fname in ("src/turbojpeg.c", "src/turbojpeg-mp.c"):
         esc = [vars_.index(v) for v in vars_ if re.search(r"\breturn\s+" + re.escape(v) + r"\s*;", body[cut:])]
         own = [vars_.index(v) for v in vars_ if v.startswith("this->")]
         nonm = sum(1 for m in acqs if m.group(3) in ("tj3Init", "fopen"))
-        progs.append((name, fname.split("/")[-1], vars_, bodyi, baili, esc, own, len(acqs), nonm))
+        progs.append((name, fname.split("/")[-1], vars_, bodyi, baili, esc, own, len(acqs) + len(outs), nonm + len(outs), name == "tj3Destroy"))
 
 if len(progs) < 8:
     sys.exit("expected at least 8 TurboJPEG functions with acquisitions, found %d" % len(progs))
 P = print
 P("(* GENERATED by tools/gen_TjAlloc.py from src/turbojpeg.c and src/turbojpeg-mp.c -- do not edit *)")
 P("From Coq Require Import List ZArith.\nFrom LJT Require Import model.TjAlloc.\nImport ListNotations.\n")
-for k, (name, fn, vars_, bodyi, baili, esc, own, nacq, nonm) in enumerate(progs):
+for k, (name, fn, vars_, bodyi, baili, esc, own, nacq, nonm, destroys) in enumerate(progs):
     P("(* %s (%s): %s; %d acquisition sites *)" % (name, fn, ", ".join("%d=%s" % (i, v) for i, v in enumerate(vars_)), nacq))
-    P("Definition prog_%s_%d : prog :=\n  {| p_name := %d;\n     p_body := [%s];\n     p_bail := [%s];\n     p_escape := [%s]; p_owned := [%s] |}.\n" % (
-        name, k, k, ";\n                ".join(bodyi), "; ".join(baili), "; ".join(map(str, esc)), "; ".join(map(str, own))))
+    P("Definition prog_%s_%d : prog :=\n  {| p_name := %d;\n     p_body := [%s];\n     p_bail := [%s];\n     p_escape := [%s]; p_owned := [%s]; p_destroys := %s |}.\n" % (
+        name, k, k, ";\n                ".join(bodyi), "; ".join(baili), "; ".join(map(str, esc)), "; ".join(map(str, own)), "true" if destroys else "false"))
 P("Definition tj_progs : list prog := [%s]." % "; ".join("prog_%s_%d" % (p[0], k) for k, p in enumerate(progs)))
 P("Definition tj_acquisition_sites : nat := %d." % sum(p[7] for p in progs))
 P("(* acquisition sites that are not malloc (tj3Init, fopen), per program *)")
 P("Definition tj_nonmalloc : list nat := [%s]." % "; ".join(str(p[8]) for p in progs))
+# ---------------------------------------------------------------- calls inside the epilogues
+def fbody(path, name):
+    src = strip_comments(rd(path))
+    m = re.search(r"[\n ]" + re.escape(name) + r"\s*\([^;{)]*\)\s*\{", src)
+    if not m:
+        sys.exit("%s: function %s not found" % (path, name))
+    j = match_brace(src, m.end() - 1)
+    return " ".join(src[m.end():j - 1].split())
+
+
+epi = []      # (function, callee, class)
+KEYW = {"if", "for", "while", "return", "sizeof", "switch"}
+for fname in ("src/turbojpeg.c", "src/turbojpeg-mp.c"):
+    src = strip_comments(rd(fname))
+    for name, raw in functions(src):
+        body = preprocess(raw)
+        if "\nbailout:" not in body:
+            continue
+        tail = body[body.rindex("\nbailout:"):]
+        for m in re.finditer(r"\(\*\s*[\w>\-]+->(\w+)\)\s*\(|(?<![\w>.])([A-Za-z_]\w*)\s*\(", tail):
+            callee = m.group(1) or m.group(2)
+            if callee in KEYW:
+                continue
+            cls = ("ERelease" if callee in ("free", "tj3Free", "fclose") else
+                   "EAbortLike" if callee in ("jpeg_abort_compress", "jpeg_abort_decompress", "jpeg_destroy_compress", "jpeg_destroy_decompress", "tj3Destroy") else
+                   "ETerm" if callee == "term_destination" else "EOther")
+            epi.append((name, callee, cls))
+if len(epi) < 20:
+    sys.exit("expected at least 20 calls inside bailout epilogues, found %d" % len(epi))
+# the callee classes, read from their sources
+facts = []
+b = fbody("src/jcomapi.c", "jpeg_abort")
+facts.append(("jpeg_abort: no ERREXIT / allocation, pools released through free_pool", not re.search(r"ERREXIT|WARNMS|alloc_|malloc", b) and "free_pool" in b))
+b = fbody("src/jcomapi.c", "jpeg_destroy")
+facts.append(("jpeg_destroy: no ERREXIT / allocation, only self_destruct", not re.search(r"ERREXIT|WARNMS|alloc_|malloc", b) and "self_destruct" in b))
+facts.append(("jpeg_abort_compress = jpeg_abort", fbody("src/jcapimin.c", "jpeg_abort_compress") == "jpeg_abort((j_common_ptr)cinfo);"))
+facts.append(("jpeg_destroy_compress = jpeg_destroy", fbody("src/jcapimin.c", "jpeg_destroy_compress") == "jpeg_destroy((j_common_ptr)cinfo);"))
+facts.append(("jpeg_abort_decompress = jpeg_abort", fbody("src/jdapimin.c", "jpeg_abort_decompress") == "jpeg_abort((j_common_ptr)cinfo);"))
+facts.append(("jpeg_destroy_decompress = jpeg_destroy", fbody("src/jdapimin.c", "jpeg_destroy_decompress") == "jpeg_destroy((j_common_ptr)cinfo);"))
+b = fbody("src/jdatadst-tj.c", "term_mem_destination")
+facts.append(("term_mem_destination (jdatadst-tj.c): assignments only", not re.search(r"ERREXIT|malloc|MALLOC|\w+\s*\(\s*cinfo", b.replace("(my_mem_dest_ptr)cinfo->dest", ""))))
+b = fbody("src/turbojpeg.c", "tj3Destroy")
+facts.append(("tj3Destroy installs its own handler before the jpeg_destroy_* calls", bool(re.search(r"if \(setjmp\(this->jerr\.setjmp_buffer\)\) return;.*jpeg_destroy_compress", b))))
+b = fbody("src/jmemmgr.c", "free_pool")
+facts.append(("free_pool: the only ERREXIT is the pool-id check", len(re.findall(r"ERREXIT", b)) == 1 and "JERR_BAD_POOL_ID" in b))
+b = fbody("src/jmemmgr.c", "self_destruct")
+facts.append(("self_destruct: no ERREXIT", "ERREXIT" not in b))
+
 # ---------------------------------------------------------------- size expressions
 import ast
 SIZEOF = {"JSAMPROW": (8, 8), "_JSAMPROW": (8, 8), "JSAMPLE": (1, 1), "size_t": (8, 8), "jpeg_transform_info": (1, 512), "_JSAMPLE": (1, 2)}
@@ -277,6 +351,14 @@ def conv(node):
     sys.exit("size expression: unsupported construct %s" % ast.dump(node)[:80])
 
 
+P("\n(* every call that occurs inside a bailout epilogue: (function, callee) -> class *)")
+for f_, c_, k_ in epi:
+    P("(* %s: %s -> %s *)" % (f_, c_, k_))
+P("Definition tj_epilogue_calls : list ecall := [%s]." % "; ".join(k_ for _, _, k_ in epi))
+P("(* facts about the callee classes, read from their sources *)")
+for t_, ok_ in facts:
+    P("(* %s: %s *)" % (t_, ok_))
+P("Definition tj_epilogue_callee_facts : list bool := [%s]." % "; ".join("true" if ok_ else "false" for _, ok_ in facts))
 P("\n(* size expressions of the malloc sites *)")
 terms, guarded = [], []
 for name, v, e in sizes:
